@@ -32,6 +32,10 @@ INCLUDE = re.compile(r'^\s*#\s*include\s*"([^"]+)"', re.M)
 
 
 def fail_build(exc, what):
+    m = re.search(r'static assertion failed: ([^\n]*)', exc.output)
+    if m:  # a compile-time expectation of the driver about the generated shell does not hold
+        raise Fail(f'{what}: static_assert failed: {m.group(1)}\n{exc.output[:1500]}',
+                   'static-assert:' + re.sub(r'\s+', '_', re.sub(r' of (multi-client )?port .*', '', m.group(1))))
     if exc.owner.startswith('harness'):
         raise HarnessError(f'{what}: error in harness-owned file ({exc.owner}): {exc}\n'
                            f'{exc.output[:3000]}')
